@@ -1,8 +1,14 @@
 import Driver.Common
+import Driver.OpsMass
+import Driver.OpsNet
 import Driver.OpsPT
 import Driver.OpsSP
+import Driver.OpsTrain
 namespace Driver
 def allHandlers : List (String × Handler) :=
+  Driver.OpsMass.handlers ++
+  Driver.OpsNet.handlers ++
   Driver.OpsPT.handlers ++
-  Driver.OpsSP.handlers
+  Driver.OpsSP.handlers ++
+  Driver.OpsTrain.handlers
 end Driver
